@@ -165,3 +165,9 @@ def check(prog, run):
 
     from . import c04
     c04.check_seen_scope(prog, run, "D5")
+
+    # ---- D6 nothing on the measuring path remembers an earlier answer
+    from .. import nomemo
+    nomemo.check(prog, run, "D6", [call], "MaxDepthValidationRule.__call__",
+                 "a document edited in place (a fragment replaced or added) would be measured against the fragments it had when "
+                 "first looked at, and a deep operation would pass", 5)
